@@ -1,10 +1,13 @@
 """C15 -- requests with a timeout always finish in bounded time (first page and later pages)."""
+import os
+
 from hypothesis import strategies as st
 
 from checks import _simfut as F
 from checks import _simutil as U
 from vlib.harness import hyp_part
 
+SERIAL = os.environ.get("VERIF_TIER") == "quick"   # heavily loaded machine: forked pool is slower than one process
 PID = "C15"
 TITLE = "Requests with a timeout always finish in bounded time"
 LEVEL = "exploration"
